@@ -652,51 +652,71 @@ def run_decomp(chk, F, rid="R-DECOMP"):
            and f.get("body") is not None]
     if not fns:
         raise AnalysisBroken("RateDecomposer::decompose not found")
-    fn = expanded_fn(fns[0], F, accept=lambda t: bool(t.get("static")) and not t.get("cls"), maxdepth=2)
+    dcls = fns[0].get("cls")
+    fn = expanded_fn(fns[0], F, accept=lambda t: (bool(t.get("static")) and not t.get("cls")) or
+                     (t.get("cls") == dcls and t.get("name") != "decompose"), maxdepth=2)
     loc = "%s:%s" % (fn["file"], fn["line"])
-    # the if-chain on the kind of the expression
-    tested = {}
-    for n in walk(fn["body"]):
-        if n.get("k") == "if":
-            for x in walk(n["c"]):
-                if x.get("k") == "bin" and x.get("op") == "==":
-                    for a, b in ((x["lhs"], x["rhs"]), (x["rhs"], x["lhs"])):
-                        a, b = strip(a), strip(b)
-                        if isinstance(a, dict) and a.get("k") == "call" and a.get("name") == "get_kind" and \
-                                isinstance(b, dict) and b.get("dk") == "enumerator" and "get_type" not in short(a):
-                            tested.setdefault(b["name"], n)
+    from ..inline import KindSlicer
+    from .effects import binder_kinds, _specialise
+    from .exprlaws import size_table
     binders = binder_kinds(F)
     sizes, _ = size_table(F)
-    # the final else: which child does it descend into?
-    last_child = any(c.get("name") == "decompose" and c.get("args") and "get_size" in short(c["args"][0])
-                     for c in calls(fn["body"]))
+    subj = fns[0]["params"][0]["name"]
+    sl = KindSlicer(F, fns[0], subject=subj, stop=("decompose",))
     for K in sorted(wr):
-        if K in tested:
-            br = tested[K]["then"]
-            rec = [c for c in calls(br) if c.get("name") == "decompose"]
-            idx = set()
-            for c in rec:
-                a = strip(c["args"][0]) if c.get("args") else None
-                if isinstance(a, dict) and a.get("k") == "call" and a.get("args"):
-                    i = strip(a["args"][-1])
-                    if isinstance(i, dict) and i.get("k") == "int":
-                        idx.add(i["v"])
-            need = set(range(sizes.get(K, 2))) if K in ("AND", "OR") else set()
-            chk.ob(rid, "branch|%s" % K, need <= idx,
-                   "RateDecomposer::decompose visits only operand(s) %s of %s: a rate or a strict bound in the other "
-                   "operand is not found, so the verdict depends on the order of the operands" % (sorted(idx), K), loc,
-                   sample="decompose has a branch for %s visiting operands %s" % (K, sorted(idx) or "-"))
+        ar = sizes.get(K)
+        if not isinstance(ar, int):
+            raise AnalysisBroken("R-DECOMP: arity of %s unknown" % K)
+        body = _specialise(sl.slice(K), subj, K, ar)
+        idx = set()
+        for c in calls(body):
+            if c.get("name") != "decompose" or not c.get("args"):
+                continue
+            a = strip(c["args"][0])
+            if isinstance(a, dict) and a.get("k") == "call" and a.get("args"):
+                i = strip(a["args"][-1])
+                if isinstance(i, dict) and i.get("k") == "int":
+                    idx.add(i["v"])
+        if K in ("AND", "OR"):
+            need, what = set(range(ar)), "both operands"
         elif K in binders:
-            ar = sizes.get(K)
-            ok = last_child or ar == 2
-            chk.ob(rid, "branch|%s" % K, ok,
-                   "RateDecomposer::decompose handles %s in its final branch, which descends into operand 1; the body of %s "
-                   "is operand %s" % (K, K, (ar or 0) - 1), loc, sample="%s: final branch descends into the body" % K)
+            need, what = {ar - 1}, "the body (operand %d)" % (ar - 1)
         else:
-            chk.ob(rid, "branch|%s" % K, False,
-                   "checkExpression can type a %s expression INVARIANT_WR, but RateDecomposer::decompose has no branch for "
-                   "%s: it falls into the branch meant for forall, which looks at operand 1 only - `b || (x' == 0 && x < 5)` "
-                   "and `(x' == 0 && x < 5) || b` give different has_stop_watch() / has_strict_invariants()" % (K, K), loc)
+            need, what = set(), "-"
+        ok = need <= idx and (K not in binders or idx <= {ar - 1})
+        chk.ob(rid, "branch|%s" % K, ok,
+               "checkExpression can type a %s expression INVARIANT_WR; for that kind RateDecomposer::decompose descends into "
+               "operand(s) %s, not into %s: a rate or a strict bound elsewhere in it is not found (`b || (x' == 0 && x < 5)` and "
+               "`(x' == 0 && x < 5) || b` give different has_stop_watch() / has_strict_invariants()), or the wrong operand of a "
+               "quantifier is taken for its body" % (K, sorted(idx) or "none", what), loc,
+               sample="decompose(%s) descends into operands %s" % (K, sorted(idx) or "-"))
+    # helpers of the decomposer that walk the expression themselves (a `hasStrictBound(expr)` looking for `<` among the
+    # conjuncts): where such a helper descends into an operand of && / ||, it descends into both
+    seen_h = set()
+    for c in calls(fns[0]["body"]):
+        for t in F.fns(c.get("fn") or ""):
+            if t.get("body") is None or t.get("cls") or not t.get("static") or t["q"] in seen_h or not t.get("params"):
+                continue
+            seen_h.add(t["q"])
+            if not any(x.get("fn") == t["q"] for x in calls(t["body"])):
+                continue
+            hs = KindSlicer(F, t, subject=t["params"][0]["name"], stop=(t["name"],))
+            for K in ("AND", "OR"):
+                hb = hs.slice(K)
+                idx = set()
+                for x in calls(hb):
+                    if x.get("fn") == t["q"] and x.get("args"):
+                        a = strip(x["args"][0])
+                        if isinstance(a, dict) and a.get("k") == "call" and a.get("args"):
+                            i = strip(a["args"][-1])
+                            if isinstance(i, dict) and i.get("k") == "int":
+                                idx.add(i["v"])
+                if idx:
+                    chk.ob(rid, "helper|%s|%s" % (t["name"], K), idx >= {0, 1},
+                           "%s, which RateDecomposer::decompose consults, descends into operand(s) %s of %s only: what it looks "
+                           "for is found or missed depending on which side of the operator it was written" %
+                           (t["name"], sorted(idx), K), "%s:%s" % (t["file"], t["line"]),
+                           sample="%s descends into both operands of %s" % (t["name"], K))
     # typing of the rebuilt conjunction
     n = 0
     for c in calls(fn["body"]):
